@@ -19,6 +19,17 @@ import (
 
 var ErrFault = errors.New("vmodel: injected lower-layer failure")
 
+// YieldAtBoundaries makes every call into a modelled lower layer (file system, KV, sub-store) a
+// point where the engine's preemption-bounded scheduler may switch goroutines (C14).
+var YieldAtBoundaries bool
+
+// Boundary marks a call into a modelled lower layer.
+func Boundary() {
+	if YieldAtBoundaries {
+		vrt.Yield()
+	}
+}
+
 // ---------- sorted.KeyValue model ----------
 
 // KV is a byte-ordered map kept as two parallel sorted slices.
@@ -29,7 +40,10 @@ type KV struct {
 	Ops   []string // log of calls ("set k", "del k", "commit n")
 }
 
-func (kv *KV) fail(op string) bool { return kv.Fault != nil && kv.Fault(op) }
+func (kv *KV) fail(op string) bool {
+	Boundary()
+	return kv.Fault != nil && kv.Fault(op)
+}
 
 func (kv *KV) idx(key string) (int, bool) {
 	for i, k := range kv.Keys {
@@ -165,7 +179,10 @@ type Store struct {
 	NoRemove  bool
 }
 
-func (s *Store) fail(op string) bool { return s.Fault != nil && s.Fault(op) }
+func (s *Store) fail(op string) bool {
+	Boundary()
+	return s.Fault != nil && s.Fault(op)
+}
 
 func (s *Store) find(br blob.Ref) int {
 	for i, r := range s.Refs {
